@@ -100,8 +100,12 @@ func (g *DependencyGraph) AddProvider(provider Provider) error {
 		Group: provider.GetGroup(),
 	}
 
-	// Create or update node
+	// Create or update node, remembering what is replaced so that a rejected
+	// add can put the graph back exactly as it was
 	node, exists := g.nodes[nodeKey]
+	var prevProvider Provider
+	var prevEdges []NodeKey
+	prevHadEdges := false
 	if !exists {
 		node = &Node{
 			Key:          nodeKey,
@@ -109,6 +113,9 @@ func (g *DependencyGraph) AddProvider(provider Provider) error {
 			Dependents:   make([]NodeKey, 0),
 		}
 		g.nodes[nodeKey] = node
+	} else {
+		prevProvider = node.Provider
+		prevEdges, prevHadEdges = g.edges[nodeKey]
 	}
 	node.Provider = provider
 
@@ -118,6 +125,7 @@ func (g *DependencyGraph) AddProvider(provider Provider) error {
 	// Add edges based on dependencies
 	providerDeps := provider.GetDependencies()
 	dependencies := make([]NodeKey, 0, len(providerDeps))
+	var placeholders []NodeKey
 	for _, dep := range providerDeps {
 		depKey := NodeKey{
 			Type:  dep.Type,
@@ -133,6 +141,7 @@ func (g *DependencyGraph) AddProvider(provider Provider) error {
 				Dependencies: make([]NodeKey, 0),
 				Dependents:   make([]NodeKey, 0),
 			}
+			placeholders = append(placeholders, depKey)
 		}
 	}
 
@@ -148,9 +157,20 @@ func (g *DependencyGraph) AddProvider(provider Provider) error {
 
 	// Check for cycles immediately
 	if err := g.detectCyclesFrom(nodeKey); err != nil {
-		// Remove the node if it creates a cycle
-		delete(g.nodes, nodeKey)
+		// Undo the add: drop what it created, restore what it replaced
+		for _, depKey := range placeholders {
+			delete(g.nodes, depKey)
+		}
 		delete(g.edges, nodeKey)
+		if exists {
+			node.Provider = prevProvider
+			node.Dependencies = make([]NodeKey, 0)
+			if prevHadEdges {
+				g.edges[nodeKey] = prevEdges
+			}
+		} else {
+			delete(g.nodes, nodeKey)
+		}
 		g.updateDegrees()
 		return err
 	}
@@ -186,6 +206,12 @@ func (g *DependencyGraph) AddProviderDeferred(provider Provider) error {
 		g.nodes[nodeKey] = node
 	}
 	node.Provider = provider
+
+	// Clear existing edges for this node (in case of replacement)
+	if exists {
+		delete(g.edges, nodeKey)
+		node.Dependencies = node.Dependencies[:0]
+	}
 
 	// Add edges based on dependencies
 	providerDeps := provider.GetDependencies()
